@@ -141,6 +141,9 @@ func genFn(t *rapid.T, svg bool) C17Fn {
 		}
 		if svg {
 			u = ""
+			if rapid.IntRange(0, 4).Draw(t, "svgem") == 0 {
+				u = "em" // of the element's font size
+			}
 		}
 		v := num(-60, 60)
 		if u == "em" {
@@ -345,6 +348,9 @@ func fnText(f C17Fn, svg bool, sep string) string {
 	var args []string
 	for i, a := range f.Args {
 		s := fmt.Sprintf("%g", a)
+		if svg && f.Unit[i] == "em" {
+			s += "em"
+		}
 		if !svg {
 			s += f.Unit[i]
 			if f.Unit[i] == "" && (name == "translate" || name == "translateX" || name == "translateY") {
@@ -646,7 +652,7 @@ func c17SVG(c *C17Case) Verdict {
 	if len(c.List2) > 0 {
 		inner = `<g transform="` + text(c.List2) + `">` + inner + `</g>`
 	}
-	doc := `<svg xmlns="http://www.w3.org/2000/svg" width="200" height="200"><g transform="` + text(c.List) + `">` + inner + `</g></svg>`
+	doc := `<svg xmlns="http://www.w3.org/2000/svg" width="200" height="200" font-size="20"><g transform="` + text(c.List) + `">` + inner + `</g></svg>`
 	labels := []string{"kind:svg"}
 	for _, f := range append(append([]C17Fn{}, c.List...), c.List2...) {
 		labels = append(labels, "svg:"+f.Name)
@@ -664,14 +670,14 @@ func c17SVG(c *C17Case) Verdict {
 	exp := m64{1, 0, 0, 1, 0, 0}
 	scale := 1.0
 	for _, f := range append(append([]C17Fn{}, c.List...), c.List2...) {
-		m := specMatrix(f, 0, 0)
+		m := specMatrixFont(f, 0, 0, 20)
 		exp = mul64(exp, m)
 		scale *= math.Max(1, norm(m))
 	}
 	for _, l := range [][]C17Fn{c.List, c.List2} {
 		p := m64{1, 0, 0, 1, 0, 0}
 		for _, f := range l {
-			p = mul64(p, specMatrix(f, 0, 0))
+			p = mul64(p, specMatrixFont(f, 0, 0, 20))
 		}
 		if len(l) > 0 && math.Abs(p[0]*p[3]-p[1]*p[2]) < 1e-4 {
 			return Verdict{Excluded: "singular-list", Labels: labels}
